@@ -61,7 +61,7 @@ EXPECTED_PROBES = ["slice-stops-before-flow-end", "slice-stop-inside-split-block
                    "filter-rejects", "split-multi-block", "sibling-stops-mid-flow", "watchdog-armed", "adapter-renamed-method",
                    "adapter-ill-typed", "adapter-decoy-standard-method",
                    "deep-copied-sequence-with-stateful-element", "adapter-element-is-falsy",
-                   "adapter-call-of-a-class-with-instance-call", "adapter-call-instance-attribute-dunder-call"]
+                   "adapter-call-of-a-class-with-instance-call", "adapter-fillcompute-of-an-element-that-also-has-run", "adapter-call-instance-attribute-dunder-call"]
 
 ACCS = ["sum", "dsum", "mean", "mean-pass", "mean-sumseq", "vmc", "vectorize", "store",
         "store-items", "groupby", "histogram", "count", "probe"]
@@ -925,6 +925,16 @@ def adapter_case(sc, res):
                 got = list(ad.compute())
                 expect = [tuple(flow)]
                 res.probe("adapter-renamed-method")
+            elif sc.case == 2 and n % 2:
+                # the wrapped element has a run method as well (as lena.flow.Count has): in a
+                # linear Sequence the adapter is still the fill/compute element it was made to be
+                res.probe("adapter-fillcompute-of-an-element-that-also-has-run")
+                o.fill = store.append
+                o.request = lambda: iter([("req", tuple(store))])
+                o.run = lambda fl: iter([("decoy-run",)])
+                s = lena.core.Sequence(lena.core.FillCompute(o))
+                got = list(s.run(iter(flow)))
+                expect = [("req", tuple(flow))]
             elif sc.case == 2:
                 # derived from a fill/request element
                 o.fill = store.append
